@@ -129,6 +129,46 @@ META = ("GUARD rules G1-G5 over the clang AST of every contract-checked operatio
         "with the indexed dimension, union-find over (object, dimension))",
         ["clang 14 parser/sema (tetl-ast)", "specs/contracts.json", "bounded-model evaluator analysis/terms.py"])
 META = (META[0] + ' G3 also forbids constructing / destroying the slot a state requirement is about before the handler fires.', META[1])
+META = (META[0] + " G4 (the operation's own check can fail in some model).", META[1])
+
+
+def precall(chk, db, records=("etl::static_vector", "etl::inplace_vector", "etl::basic_inplace_string", "etl::basic_string_view", "etl::span")):
+    """PRECALL (used by C02): a call that satisfies the operation's own documented requirement never violates the precondition
+    of a member it calls internally. The checks are compiled out in a default build, so such an internal violation is plain
+    undefined behaviour there (`resize(n, v)` handing `n` instead of `n - size()` to `insert` writes past the buffer). Decided
+    like G2: in every model that satisfies the requirement, no guard of an inlined callee fires."""
+    with open(SPEC) as fh:
+        table = json.load(fh)["entries"]
+    n = 0
+    for ent in table:
+        if ent.get("record") not in records or ent.get("config") not in (None, "checks"):
+            continue
+        try:
+            fs = select(db, ent)
+        except Exception:
+            continue
+        for f in fs:
+            f2 = f
+            if ent.get("sorts"):
+                f2 = dict(f)
+                f2["params"] = [dict(p) for p in f["params"]]
+                for i, so in ent["sorts"].items():
+                    f2["params"][int(i)]["ty"] = {"p": "const_iterator", "u": "size_t", "s": "ptrdiff_t"}[so]
+            n += 1
+            construct = astx.sig(f)
+            chk.instance("PRECALL")
+            try:
+                r = G.check_operation(db, f2, ent["req"], kind=ent.get("kind", "A"), static_conds=ent.get("static"), assume=ent.get("assume"), max_depth=3)
+            except Exception as ex:
+                chk.unknown_instance("PRECALL", construct, "engine: %r" % (ex,))
+                continue
+            bad = r.g2_callee_witness is not None
+            chk.obligation("PRECALL", construct, not bad, evaluations=max(1, r.models))
+            if bad:
+                chk.violation("PRECALL", construct, "callee-precondition", "%s: with arguments that satisfy `%s` the precondition of a member called "
+                              "internally is violated; witness %s" % (astx.loc(f), ent["req"], json.dumps(r.g2_callee_witness)),
+                              {"where": astx.loc(f), "witness": r.g2_callee_witness})
+    return n
 
 
 def run(chk, tier):
